@@ -119,8 +119,15 @@ def nesting(depth):
     out["binary-chain"] = "def f() -> int:\n    return " + "1 + " * d + "1\n"
     out["power-chain"] = "def f() -> int:\n    return " + "2 ** " * d + "2\n"
     out["compare-chain"] = "def f() -> bool:\n    return " + "1 < " * d + "1\n"
-    dt = min(d, 12)    # deeper generic nesting is the known finding emit-nested-generics-exponential (see witness)
-    out["types"] = "def f(x: " + "List[" * dt + "int" + "]" * dt + ") -> None:\n    pass\n"
+    # generic type annotations at full depth: lowering them used to take time 2^depth (repaired finding
+    # emit-nested-generics-exponential); every collection arm of AstLowering::lower_type and a user generic
+    out["types"] = "def f(x: " + "List[" * d + "int" + "]" * d + ") -> None:\n    pass\n"
+    out["types-dict"] = "def f(x: " + "Dict[str, " * d + "int" + "]" * d + ") -> None:\n    pass\n"
+    out["types-result-option-set"] = ("def f(x: " + "Result[Option[Set[" * (d // 3) + "int" + "]], str]" * (d // 3) + ") -> None:\n    pass\n")
+    out["types-user-generic"] = "def f(x: " + "Box[" * d + "int" + "]" * d + ") -> None:\n    pass\n"
+    out["types-tuple"] = "def f(x: " + "Tuple[int, " * d + "int" + "]" * d + ") -> None:\n    pass\n"
+    out["types-const"] = "const X: " + "List[" * min(d, 40) + "int" + "]" * min(d, 40) + " = []\n"
+    out["types-return-and-let"] = ("def f() -> " + "List[" * d + "int" + "]" * d + ":\n    let y: " + "Option[" * d + "int" + "]" * d + " = None\n    return []\n")
     out["try-chain"] = "def f() -> int:\n    return x" + "?" * d + "\n"
     out["await-chain"] = "async def f() -> int:\n    return " + "await " * d + "x\n"
     blocks = "def f() -> None:\n"
@@ -210,6 +217,10 @@ def classify(src, viol, findings):
 def run(chk):
     quick = chk.tier == "quick"
     rng = chk.rng
+    if os.environ.get("VERIF_KF_C11"):
+        # test hook: take this property's findings from another file (used to check that a repaired class is no
+        # longer suppressed before known_findings.json itself is updated)
+        chk.findings = [f for f in json.load(open(os.environ["VERIF_KF_C11"])) if f.get("property") == "C11"]
     chk.trusted = [
         "Coq 8.16.1 kernel (coqc; vm_compute for closed facts and for evaluating the model in the correspondence run)",
         "hand model coq/Lex/Chars.v + coq/Lex/Layout.v of the lexer (tied by correspondence on token classes, byte spans, error classes)",
@@ -293,6 +304,12 @@ def run(chk):
             cases.append(("truncation", s[:i]))
     for s in lits:
         cases.append(("literal/bracket", s))
+    # regression stream of the repaired finding python-import-ident-panic: any package string must give Ok or a
+    # GenerationError, never a panic
+    for pk in ["my-pkg", "::requests", "a.b", "", "a b", "1x", "fn", "requests", "\u00e9", "self", "_", "r#x", "a::b", "x-", "-", "Self",
+               "crate", "super", "async", "\U0001f600", "a\tb", "0", "__", "type", "r#", "r#fn", "a'b", "a\\b"]:
+        for tail in ["", " as p"]:
+            cases.append(("python-import", 'import python "%s"%s\n\ndef f() -> None:\n    pass\n' % (pk, tail)))
     for pre in ["", "# \u00e9\u00e9\u00e9\u00e9\u00e9\u00e9\u00e9\u00e9\u00e9\u00e9\n", '"""\u20ac\U0001f600\u20ac\U0001f600\u20ac"""\n']:
         for ex in ["zzz", "zzz + 1", "1 + zzz", "f(zzz)", "zzz.a.b", "(zzz)", " zzz ", "x + 1", "'a' + 1", "zzz[0]", "not zzz", "\u00e9", "zzz?"]:
             cases.append(("fstring-expr", pre + "def f(x: int) -> None:\n    let s = f\"v={%s} {x}\"\n" % ex))
@@ -306,6 +323,7 @@ def run(chk):
         raise vlib.Infra("c11 robust: %d lines for %d cases" % (len(out), len(cases)))
     vlib.log("[c11] robustness run %d cases in %.1fs" % (len(cases), _t.time() - t0))
     known_seen = {}
+    rechecks = 0
     for (group, s), line in zip(cases, out):
         g = group.split("@")[0] if group.startswith("nest-") else group
         if line.startswith("R "):
@@ -327,8 +345,10 @@ def run(chk):
             if fid:
                 known_seen.setdefault(fid, (s, line))
                 continue
-            if line == "HANG":
+            if line == "HANG" and rechecks < 3:
                 # a busy machine must not produce a false alarm: the case alone, with six times the limit
+                # (at most three such re-runs per run: more hangs than that are not load)
+                rechecks += 1
                 again = run_robust(binary, [s], limit=120)[0]
                 if again.startswith("R ") and not again.partition(" | ")[2].strip():
                     chk.notes.append("a case exceeded 20 s in the batch but finished alone within 120 s (machine load): %r" % s[:80])
